@@ -1,9 +1,113 @@
-/- C14 — bidi_class is Bidi_Class 16.0.  (first layer) -/
+/- C14 — bidi_class is Bidi_Class 16.0: the built-in table is sorted, non-empty, non-overlapping;
+   the binary search is total and equals the order-independent lookup on every sorted table;
+   the table agrees with the frozen Unicode 16.0 reference on every code point; the format
+   characters have their defining classes. -/
 import UBidi.Model.CharData
 import UBidi.Ref.Ucd16
+import UBidi.Lemmas.C14
 namespace UBidi.Props.C14
 open UBidi
 
 theorem version : Gen.unicodeVersion = (16, 0, 0) := by decide
+
+/-- Bool checker: every row has lo ≤ hi and hi < lo of the next row. -/
+def sortedB : List (Nat × Nat × BidiClass) → Bool := Lemmas.C14.sortedB
+
+/-- test of the checker on literals: accepts a sorted table, rejects an empty range,
+    an overlap and an out-of-order pair -/
+example : sortedB [(0, 8, .BN), (9, 9, .S), (0x41, 0x5A, .L)] = true
+    ∧ sortedB [(5, 4, .BN)] = false
+    ∧ sortedB [(0, 9, .BN), (9, 12, .S)] = false
+    ∧ sortedB [(10, 12, .BN), (0, 3, .S)] = false := by decide
+
+/-- the crate's table: ranges non-empty, sorted, non-overlapping (proof over the whole table) -/
+theorem C14_sorted : sortedB Gen.classTable = true := by decide +kernel
+
+/-- the frozen reference table has the same shape -/
+theorem C14_ref_sorted : sortedB Ref.classTable16 = true := by decide +kernel
+
+/-- The binary search (as std implements it) finds exactly what the order-independent lookup
+    finds, for EVERY sorted table.  In particular it is total: no index is out of range
+    (`Array.getD` defaults are never the answer unless the table is empty). -/
+theorem C14_bsearch (t : List (Nat × Nat × BidiClass)) (h : sortedB t = true) (c : Nat) :
+    bsearchTable t.toArray c = lookupTable t c :=
+  Lemmas.C14.bsearch_eq_lookup t (Lemmas.C14.sorted_of_sortedB t h) c
+
+/-- totality: on a sorted non-empty table the index the search ends on is inside the table, so
+    the final `t[base]` read of `bsearch_range_value_table` cannot be out of range (the Model reads
+    with `Array.getD`; this shows the default is never used). -/
+theorem C14_bsearch_total (t : List (Nat × Nat × BidiClass)) (h : sortedB t = true) (hne : t ≠ [])
+    (c : Nat) : bsearchLoop t.toArray c t.toArray.size 0 t.toArray.size < t.toArray.size := by
+  have hlen : 1 ≤ t.length := List.length_pos_iff.2 hne
+  rw [List.size_toArray]
+  exact (Lemmas.C14.bsearchLoop_spec t (Lemmas.C14.sorted_of_sortedB t h) c t.length 0 t.length
+    (Nat.le_refl _) hlen (by omega) (Or.inl rfl) (fun j hj hjl => by omega)).1
+
+/-- non-vacuity: the crate's table is sorted and non-empty -/
+theorem C14_index_in_range (c : Nat) :
+    bsearchLoop classArray c classArray.size 0 classArray.size < classArray.size :=
+  C14_bsearch_total Gen.classTable C14_sorted (by decide +kernel) c
+
+/-- non-vacuity: the hypothesis of `C14_bsearch` holds for the crate's table, so
+    `bidiClass` is the order-independent lookup -/
+theorem C14_bidiClass_eq_lookup (c : Nat) : bidiClass c = lookupTable Gen.classTable c :=
+  C14_bsearch Gen.classTable C14_sorted c
+
+/-- order independence: in a sorted table the answer is the class of THE range containing c -/
+theorem C14_lookup_mem (t : List (Nat × Nat × BidiClass)) (h : sortedB t = true)
+    (r : Nat × Nat × BidiClass) (hr : r ∈ t) (c : Nat) (hc : r.1 ≤ c ∧ c ≤ r.2.1) :
+    lookupTable t c = r.2.2 :=
+  Lemmas.C14.lookup_mem t (Lemmas.C14.sorted_of_sortedB t h) r hr c hc
+
+/-- non-vacuity (test on literals): a row of the crate's table and a code point in it -/
+example : lookupTable Gen.classTable 0x35 = .EN :=
+  C14_lookup_mem Gen.classTable C14_sorted (0x30, 0x39, .EN)
+    (List.mem_of_getElem? (i := 17) (by decide +kernel)) 0x35 (by decide)
+
+theorem C14_lookup_default (t : List (Nat × Nat × BidiClass)) (c : Nat)
+    (h : ∀ r ∈ t, ¬ (r.1 ≤ c ∧ c ≤ r.2.1)) : lookupTable t c = .L :=
+  Lemmas.C14.lookup_default t c h
+
+/-- non-vacuity (test on literals) -/
+example : lookupTable [(0, 8, .BN), (9, 9, .S)] 100 = .L :=
+  C14_lookup_default _ 100 (by decide)
+
+/-- Bool comparison of two range tables: equal canonical forms (rows of the default class `L`
+    dropped, adjacent rows of one class merged). -/
+def tablesAgree (a b : List (Nat × Nat × BidiClass)) : Bool :=
+  decide (Lemmas.C14.canon a = Lemmas.C14.canon b)
+
+/-- test of the checker on literals: different row splits / explicit-vs-default `L` agree;
+    a changed class or a shifted boundary does not -/
+example : tablesAgree [(0, 3, .BN), (4, 8, .BN), (9, 9, .L), (20, 30, .R)] [(0, 8, .BN), (20, 25, .R), (26, 30, .R)] = true
+    ∧ tablesAgree [(0, 8, .BN)] [(0, 8, .S)] = false
+    ∧ tablesAgree [(0, 8, .BN)] [(0, 7, .BN)] = false := by decide
+
+theorem tablesAgree_sound (a b : List (Nat × Nat × BidiClass)) (h : tablesAgree a b = true)
+    (ha : sortedB a = true) (hb : sortedB b = true) (c : Nat) :
+    lookupTable a c = lookupTable b c := by
+  have h' : Lemmas.C14.canon a = Lemmas.C14.canon b := of_decide_eq_true h
+  rw [← Lemmas.C14.lookup_canon a (Lemmas.C14.sorted_of_sortedB a ha),
+    ← Lemmas.C14.lookup_canon b (Lemmas.C14.sorted_of_sortedB b hb), h']
+
+theorem C14_tablesAgree : tablesAgree Gen.classTable Ref.classTable16 = true := by decide +kernel
+
+/-- The crate's table and the frozen Unicode 16.0 reference give the same class to EVERY
+    code point (no restriction to scalar values: on surrogates and above U+10FFFF both sides
+    answer the default `L`). -/
+theorem C14_ref (c : Nat) : bidiClass c = lookupTable Ref.classTable16 c := by
+  rw [C14_bidiClass_eq_lookup]
+  exact tablesAgree_sound _ _ C14_tablesAgree C14_sorted C14_ref_sorted c
+
+/-- the format characters have their defining classes, and the constants their code points -/
+theorem C14_format : bidiClass Gen.fcLRE = .LRE ∧ bidiClass Gen.fcRLE = .RLE ∧ bidiClass Gen.fcPDF = .PDF ∧
+    bidiClass Gen.fcLRO = .LRO ∧ bidiClass Gen.fcRLO = .RLO ∧ bidiClass Gen.fcLRI = .LRI ∧
+    bidiClass Gen.fcRLI = .RLI ∧ bidiClass Gen.fcFSI = .FSI ∧ bidiClass Gen.fcPDI = .PDI ∧
+    bidiClass Gen.fcLRM = .L ∧ bidiClass Gen.fcRLM = .R ∧ bidiClass Gen.fcALM = .AL ∧
+    Gen.fcLRE = 0x202A ∧ Gen.fcRLE = 0x202B ∧ Gen.fcPDF = 0x202C ∧ Gen.fcLRO = 0x202D ∧ Gen.fcRLO = 0x202E ∧
+    Gen.fcLRI = 0x2066 ∧ Gen.fcRLI = 0x2067 ∧ Gen.fcFSI = 0x2068 ∧ Gen.fcPDI = 0x2069 ∧
+    Gen.fcLRM = 0x200E ∧ Gen.fcRLM = 0x200F ∧ Gen.fcALM = 0x61C := by
+  simp only [C14_bidiClass_eq_lookup]
+  decide +kernel
 
 end UBidi.Props.C14
